@@ -19,7 +19,7 @@
        m<n>  max_data_bytes of the following calls       d<q> packet duration in 2.5 ms units (1 2 4 8 16 24 32 40 48)
        s<k>  input class of the following packets: 0 digital silence, 1 speech-like, 2 white noise -20 dBFS,
              3 full-scale white noise, 4 beyond full scale (square wave +-1.5), 5 faint noise, 6 clicks and bursts,
-             7 tones, 8 full-scale sweep
+             7 tones, 8 full-scale sweep, 9 train of noise bursts (one per 50 ms), 10 dense harmonic tone
        e<n>  n encode calls
    Output: NDJSON.  "new" per execution, "set" per control call (request, value, return code), "enc" per
    encode call, "end". */
@@ -73,6 +73,14 @@ static void gen(float *x, int n, int ch, int fs, int k)
             double a = 0.12 * (1.0 + 0.8 * sin(2 * M_PI * (0.21 + 0.13 * h) * t));
             s += a * sin(2 * M_PI * F[h] * t + h); s2 += a * sin(2 * M_PI * F[h] * 1.003 * t + 2.0 * h);
          }
+         break; }
+      case 9: {   /* train of decaying noise bursts, one every 50 ms */
+         double u = fmod(t, 0.05);
+         s = 0.46 * exp(-u * 800.0) * nz(); s2 = 0.8 * s;
+         break; }
+      case 10: {  /* dense harmonic tone: 20 harmonics of 220.5 Hz */
+         for (h = 1; h <= 20; h++) if (h * 220.5 < 0.45 * fs) s += 0.037 * sin(2 * M_PI * h * 220.5 * t + h);
+         s2 = 0.8 * s;
          break; }
       default: {
          double f = 50.0 + (0.45 * fs - 50.0) * fmod(t, 1.7) / 1.7;
